@@ -78,6 +78,47 @@ def run(repo, chk):
     rule_f(chk, d, t)
     rule_g(repo, chk)
     rule_h(repo, chk, d)
+    rule_stale_tasks(repo, chk)
+    rule_refire(repo, chk)
+
+
+def rule_stale_tasks(repo, chk):
+    """tick() steps a snapshot of the task set; a step may run a nested tick()/flush() (supported: a633c0f) that finishes other tasks of the snapshot.  Stepping such a
+    task again makes its generator raise StopIteration a second time: the stepper takes the waiting count of the event down once more and declares it done
+    (success fired) while another handler is still suspended."""
+    chk.rule('C04.k', 'tick() steps only tasks that are still registered: every entry of the snapshot it iterates is looked up in the live task set before it is stepped')
+    t = repo.func(MANAGER, 'Manager.tick')
+    chk.touch(t)
+    g = t.cfg()
+    steps = [n for n in g.nodes if n.kind == 'stmt' and any(r == 'self' for r, _c in pat.method_calls(n.ast, 'processTask'))]
+    need(steps, 'C04.k: tick() never steps a task')
+    for n in steps:
+        loops = [a for k, a in n.ctx if k == 'loop']
+        snap = bool(loops) and any(x in src(loops[-1].iter) for x in ('.copy()', 'list(', 'tuple(', '[:]'))
+        tv = src(loops[-1].target) if loops else None
+        live = pat.test_edge(lambda tt, pol: tv is not None and (lambda fc: fc is not None and fc[0] == tv and fc[1] == 'in' and fc[2].endswith('_tasks'))(pat.compare_fact(tt, pol)))
+        q = pat.guarded_by(g, n, live) if snap else None
+        chk.ob('k', t.ref, 'a task taken from the snapshot is stepped only if it is still in the task set (a nested tick() of an earlier step may have finished it)',
+               (not snap) or q is None, loc(t, n.ast), path=pat.path_lines(q) if q else None, discr='stale-task-not-stepped')
+
+
+def rule_refire(repo, chk):
+    """An event object may be fired again after its dispatch is over (a retry; a persistent Timer re-fires one object): what _eventDone remembers about the failed
+    dispatch must not decide the next one."""
+    chk.rule('C04.l', 'the per-event failure record that gates <name>_success is cleared when the event is fired (again)')
+    e = repo.func(MANAGER, 'Manager._eventDone')
+    marks = {a for n in walk_no_defs(e.node) if isinstance(n, ast.Assign) for r, a, v in pat.attr_store(n) if pat.is_const(v, True) and a.startswith('_') and r == e.params[1]}
+    need(marks, 'C04.l: _eventDone keeps no failure record')
+    fe = repo.func(MANAGER, 'Manager.fireEvent')
+    chk.touch(fe)
+    g = fe.cfg()
+    ev = fe.params[1]
+    for mk in sorted(marks):
+        clears = [n for n in g.nodes if n.kind == 'stmt' and any(r == ev and a == mk and pat.is_const(v, False) for r, a, v in pat.attr_store(n.ast))]
+        queued = [n for n in g.nodes if n.kind == 'stmt' and any(r.endswith('root') or r == 'self' for r, _c in pat.method_calls(n.ast, '_fire'))]
+        p = Q.reachable_without(g, queued[0], avoid_node=lambda n: n in clears) if queued else None
+        chk.ob('l', fe.ref, f'`{mk}` (set by _eventDone when a handler raised) is cleared before the event is queued again', bool(clears) and bool(queued) and p is None,
+               loc(fe, (clears or queued or [g.entry])[0].ast) if (clears or queued) else loc(fe, fe.node), discr=f'failure-record-reset:{mk}')
 
 
 def rule_a_b(chk, f, ev):
@@ -463,8 +504,21 @@ def rule_g(repo, chk):
             and src(n.ast.value).replace(' ', '') in ('[self._value]', '[self._value,' + v + ']')]
     apps = [n for n in g.nodes if n.kind == 'stmt' and any(r == 'self._value' and [src(a) for a in c.args] == [v] for r, c in pat.method_calls(n.ast, 'append'))]
     bad_ops = [c for r, c in pat.method_calls(f.node, 'insert') + pat.method_calls(f.node, 'appendleft') + pat.method_calls(f.node, 'extend') if r == 'self._value']
-    has_T = pat.test_edge(lambda tt, pol: pol == 'T' and src(tt) == 'self.result')
-    has_F = pat.test_edge(lambda tt, pol: pol == 'F' and src(tt) == 'self.result')
+    # the record "something has been stored": the attribute whose falsity guards the plain store
+    cands = sorted({src(n.ast) for n in g.nodes if n.kind == 'test' and isinstance(n.ast, ast.Attribute) and src(n.ast.value) == 'self'})
+    has_attr = 'self.result'
+    for c_ in cands:
+        if first and all(pat.guarded_by(g, n, pat.test_edge(lambda tt, pol, c_=c_: pol == 'F' and src(tt) == c_)) is None for n in first):
+            has_attr = c_
+    has_T = pat.test_edge(lambda tt, pol: pol == 'T' and src(tt) == has_attr)
+    has_F = pat.test_edge(lambda tt, pol: pol == 'F' and src(tt) == has_attr)
+    # … is a record of storing, not of having a result: a nested value that is still pending is stored but is no result yet, and the next result must be put
+    # next to it, not in its place.  So the record is set whenever setValue stores, on every path
+    marks = [n for n in g.nodes if n.kind == 'stmt' and 'self' in pat.stores_attr(n.ast, has_attr.split('.', 1)[1], True)]
+    pm = Q.escapes(g, [g.entry], lambda n: n in marks, exc=())
+    chk.ob('g', f.ref, 'whether a result is the first one is decided by a record that every store sets (a pending nested value counts as stored: the next result goes next '
+                       'to it, not in its place)', bool(marks) and pm is None, loc(f, (marks or first or [g.entry])[0].ast) if (marks or first) else loc(f, f.node),
+           detail=f'record: {has_attr}', path=pat.path_lines(pm) if pm else None, discr='stored-record-unconditional')
     ok = bool(first) and all(pat.guarded_by(g, n, has_F) is None for n in first)
     chk.ob('g', f.ref, 'the first result is stored as such (only while no result has been stored yet)', ok, loc(f, (first or [g.entry])[0].ast if first else f.node),
            discr='first-as-such')
